@@ -636,6 +636,23 @@ def _callers_have_read(f, block, c, depth):
     return True, total
 
 
+def _is_enumerate_index(fn, e):
+    """e is the index component of an item of `.enumerate()`: either directly in a loop, or the `.0`
+    of the argument of a closure that is passed to an iterator method of an `Enumerate<..>`."""
+    if _enumerate_index_of(e) is not None:
+        return True
+    if fn.is_closure and e[0] == "field" and e[2] == "0" and e[1] == ("param", 2):
+        parent = fn.facts.fns.get(fn.parent)
+        if parent is not None:
+            for bi, t, cal in parent.calls():
+                if cal and not cal.local and cal.def_trait == "std::iter::Iterator" and (cal.adt or "") == "std::iter::Enumerate":
+                    for tix in cal.substs:
+                        ty = fn.facts.types[tix]
+                        if ty.get("k") == "closure" and ty.get("def") == fn.path:
+                            return True
+    return False
+
+
 def g5c_index_sum(site, tests):
     """usize + induction variable of 0..len (sum of two in-memory sizes cannot overflow)"""
     if site.kind != "add" or site_int_type(site) != "usize":
@@ -643,6 +660,8 @@ def g5c_index_sum(site, tests):
     a, b = site.ops
     if _range_item(b) is not None or _range_item(a) is not None:
         return "G5: usize base plus an induction variable bounded by a length"
+    if _is_enumerate_index(site.fn, a) or _is_enumerate_index(site.fn, b):
+        return "G5: usize base plus an enumerate() index bounded by a length"
     if _const_int(b) is not None and 0 <= _const_int(b) <= 4096:
         return "G5: small constant added to a usize"
     return None
